@@ -88,6 +88,27 @@ func micWrapper(c *Ctx, rule string, fn *ssa.Function, calc string, set bool, wa
 		}
 		res := e.Select(r.Results[0], nil, r)
 		stored := flow.Param(0, "MIC")
+		// a comparison written byte by byte (`a[2] == b[2] && a[3] == b[3]`)
+		if set, ok := conjByteEq(res, stored, mic); ok {
+			wantSet := map[int]bool{0: true, 1: true, 2: true, 3: true}
+			what := "result (all four MIC bytes)"
+			if micf {
+				wantSet = map[int]bool{2: true, 3: true}
+				what = "result (bytes 2..3 = cmacF)"
+			}
+			same := len(set) == len(wantSet)
+			for i := range wantSet {
+				same = same && set[i]
+			}
+			var got []string
+			for i := 0; i < 4; i++ {
+				if set[i] {
+					got = append(got, fmt.Sprint(i))
+				}
+			}
+			c.Run.Check(same, rule, rk+"/compare", ipos(c, r), what, "compares bytes "+strings.Join(got, ",")+" one by one", true)
+			continue
+		}
 		if micf {
 			w1 := flow.Call("bytes.Equal", flow.SliceOf(stored, flow.ConstInt(2), nil), flow.SliceOf(mic, flow.ConstInt(2), nil))
 			w2 := flow.Call("bytes.Equal", flow.SliceOf(mic, flow.ConstInt(2), nil), flow.SliceOf(stored, flow.ConstInt(2), nil))
@@ -104,6 +125,33 @@ func micWrapper(c *Ctx, rule string, fn *ssa.Function, calc string, set bool, wa
 	if nSucc == 0 {
 		c.Run.Unknown(rule, key+"/success-return", fpos(c, fn), "a return with a nil error", "none found")
 	}
+}
+
+// conjByteEq: t is a conjunction (`&&` as ite(c, rest, false)) of comparisons a.[i] == b.[i] between the two given
+// 4-byte values; returns the set of indices compared.
+func conjByteEq(t, a, b *flow.Term) (map[int]bool, bool) {
+	set := map[int]bool{}
+	var walk func(t *flow.Term) bool
+	walk = func(t *flow.Term) bool {
+		switch {
+		case t.Op == "ite" && len(t.Args) == 3 && t.Args[2].Op == "const" && t.Args[2].Val == "false":
+			return walk(t.Args[0]) && walk(t.Args[1])
+		case t.Op == "bin" && t.Val == "==" && len(t.Args) == 2:
+			for i := 0; i < 4; i++ {
+				f := fmt.Sprintf("[%d]", i)
+				x, y := a.Field(f), b.Field(f)
+				if (t.Args[0].Equal(x) && t.Args[1].Equal(y)) || (t.Args[0].Equal(y) && t.Args[1].Equal(x)) {
+					set[i] = true
+					return true
+				}
+			}
+		}
+		return false
+	}
+	if !walk(t) || len(set) == 0 {
+		return nil, false
+	}
+	return set, true
 }
 
 // ---------------------------------------------------------------------------
